@@ -280,7 +280,7 @@ def gen(rng, tier):
         seqs = rng.sample(seqs, 700) + [s for s in itertools.product(range(len(alpha)), repeat=2)]
     for sq in seqs:
         cases.append({'kind': 'vc', 'span': [10, 11, 12], 'strict': False, 'ops': [copy.deepcopy(alpha[i]) for i in sq]})
-    n_rand = 2200 if tier == 'quick' else 60000
+    n_rand = 5000 if tier == 'quick' else 60000
     for i in range(n_rand):
         kind = ['vc', 'vc', 'model', 'linker'][i % 4]
         cases.append(rand_case(rng, kind, 40 if i % 3 else 12))
